@@ -31,7 +31,7 @@ func init() {
 	vc.Register(&vc.Check{
 		ID:    "C06",
 		Level: "exploration",
-		Rule:  "schedules: all interleavings up to the preemption bound (statement-level points: quick 1, thorough 2; synchronisation-level points: thorough 3) of 2 (thorough: also 3) concurrent Serf.UserEvent calls, resp. Serf.Query calls, with a network thread delivering one foreign event/query, on a real Serf node; scheduling points at every lock, atomic and channel operation and before every statement of UserEvent/Query/handleUserEvent/handleQuery; Lamport times are decoded from the node's outgoing broadcasts; non-trivial = at least one non-default scheduling choice",
+		Rule:  "schedules: all interleavings within the deviation bound (delay bounding; statement-level points: quick 2, thorough 3; synchronisation-level points only: thorough 4) of 2 (thorough: also 3) concurrent Serf.UserEvent calls, resp. Serf.Query calls, with a network thread delivering one foreign event/query, on a real Serf node; scheduling points at every lock, atomic and channel operation and before every statement of UserEvent/Query/handleUserEvent/handleQuery; Lamport times are decoded from the node's outgoing broadcasts; non-trivial = at least one non-default scheduling choice",
 		Assumptions: []string{
 			"inert real memberlist (no tickers, recording transport); gossip arrives serially through Delegate.NotifyMsg as in memberlist's single packet handler",
 			"'already processed when the call began' is decided by harness timestamps taken before calling and after returning",
@@ -42,15 +42,15 @@ func init() {
 
 func c06run(ctx *vc.Ctx) {
 	// statement-level points: bound 1 (quick) / 2 (thorough); synchronisation-level points only: one more
-	b := 1
+	b := 2
 	if ctx.Thorough() {
-		b = 2
+		b = 3
 	}
 	c06explore(ctx, "user-events/2callers/stmt", false, 2, b, true)
 	c06explore(ctx, "queries/2callers/stmt", true, 2, b, true)
 	if ctx.Thorough() {
-		c06explore(ctx, "user-events/2callers/sync", false, 2, 3, false)
-		c06explore(ctx, "queries/2callers/sync", true, 2, 3, false)
+		c06explore(ctx, "user-events/2callers/sync", false, 2, 4, false)
+		c06explore(ctx, "queries/2callers/sync", true, 2, 4, false)
 		c06explore(ctx, "user-events/3callers/sync", false, 3, 2, false)
 		c06explore(ctx, "queries/3callers/sync", true, 3, 2, false)
 	}
